@@ -952,6 +952,99 @@ theorem C10_loop_run_fails (o : Oracles) (B post : List Op) (it n : UInt16) (hea
     (by rw [phi_init]; omega) (by rw [phi_init]; omega)]
   exact h
 
+/-! ## 12. Three oddities of the loop bookkeeping, stated
+
+  The loop frame `{begin_, end_, left}` is pushed by `loop it n` with `end_ = pc + n - 1` (`pc` already
+  incremented) and is only looked at by `updatePc` *after* an instruction, when the new pc is past
+  `end_`: exactly one past with iterations left → jump back to `begin_`; otherwise the frame is dropped. -/
+
+/-- **an empty-bodied loop leaves a stale frame for one step.** `loop it 0` (`it > 0`) pushes a frame
+    with `end_ = begin_ - 1`. The pc is then one past `end_`: with iterations left (`it ≥ 2`) `updatePc`
+    "jumps back" to `begin_` (= the next instruction) and *keeps* the frame, so the next instruction runs
+    inside a loop whose body is over — a `loop` there is judged to overrun its parent and the covenant
+    fails. With `it = 1` nothing is left, the frame is dropped at once and the same continuation runs.
+    (Both results are those observed on the real executor.) -/
+theorem C10_empty_loop_stale_frame_actual (o : Oracles) :
+    run o [.loop 2 0, .loop 2 1, .pushi 1] [] = none ∧
+    run o [.loop 1 0, .loop 2 1, .pushi 1] [] = some (.int 1) :=
+  ⟨rfl, rfl⟩
+
+/-- the stale frame itself: after the single step of `loop it 0`, `it ≥ 2`, outside any loop, the machine
+    is at the next instruction with the frame `{begin_ := pc + 1, end_ := pc, left := it - 2}` still on the
+    loop stack; with `it = 1` the loop stack is empty again -/
+theorem C10_empty_loop_stale_frame_step_actual (o : Oracles) (pre rest : List Op) (it : UInt16)
+    (st : Exec) (hpc : st.pc = pre.length) (hl : st.loops = []) :
+    (it.toNat ≥ 2 → step o (pre ++ [Op.loop it 0] ++ rest) st =
+      some { st with pc := pre.length + 1,
+                     loops := [{ begin_ := pre.length + 1, end_ := pre.length,
+                                 left := it.toNat - 2 }] }) ∧
+    (it.toNat = 1 → step o (pre ++ [Op.loop it 0] ++ rest) st =
+      some { st with pc := pre.length + 1, loops := [] }) := by
+  have hop : (pre ++ [Op.loop it 0] ++ rest)[st.pc]? = some (Op.loop it 0) := by
+    rw [hpc]; simp
+  have h1 : pre.length + 1 > pre.length := by omega
+  have h2 : pre.length + 1 - pre.length = 1 := by omega
+  constructor
+  · intro hit
+    have hit' : it.toNat > 0 := by omega
+    have hit2 : it.toNat - 1 > 0 := by omega
+    have e : it.toNat - 1 - 1 = it.toNat - 2 := by omega
+    unfold step
+    rw [hop]
+    simp [execOp, hit', hl, hpc, updatePc, h1, h2, hit2, e]
+  · intro hit
+    unfold step
+    rw [hop]
+    simp [execOp, hit, hl, hpc, updatePc, h1]
+
+/-- **a loop whose body runs past the end of the program runs once.** `loop 5 3` with only two
+    instructions left: `end_` lies beyond the program, the pc never gets past it, the run ends at the end of
+    the program after a single pass (0 + 1). With the right length, `loop 5 2`, the body runs 5 times.
+    (Both results are those observed on the real executor.) -/
+theorem C10_loop_body_overrun_runs_once_actual (o : Oracles) :
+    run o [.pushi 0, .loop 5 3, .pushi 1, .add] [] = some (.int 1) ∧
+    run o [.pushi 0, .loop 5 2, .pushi 1, .add] [] = some (.int 5) :=
+  ⟨rfl, rfl⟩
+
+/-- general form, in the setting of `C10_loop_exact`: program `pre ++ [loop it n] ++ B` ending with the
+    straight-line block `B`, `it > 0`, stated length `n > B.length`. After `1 + B.length` steps the machine
+    is at the end of the program, `B` having been applied exactly once (whatever `it`), the loop frame
+    still open … -/
+theorem C10_loop_body_overrun_stepN_actual (o : Oracles) (pre B : List Op) (it n : UInt16) (st : Exec)
+    (hit : it.toNat > 0) (hn : B.length < n.toNat) (hS : ∀ op ∈ B, op.isStraight = true)
+    (hpc : st.pc = pre.length) (hl : st.loops = []) :
+    stepN o (pre ++ [Op.loop it n] ++ B) (1 + B.length) st =
+      (straight o B (st.stack, st.heap)).map fun sh =>
+        { stack := sh.1, heap := sh.2, pc := (pre ++ [Op.loop it n] ++ B).length,
+          loops := [{ begin_ := pre.length + 1, end_ := pre.length + n.toNat,
+                      left := it.toNat - 1 }] } := by
+  rw [stepN_add, stepN_one, step_loop_head_any o pre B it n st hit (by omega) hpc hl]
+  simp only [Option.bind_some]
+  rw [inside_stepN o _ _ B _ [] hS (drop_loop_rest pre B _) rfl (by simp only; omega)]
+  simp only [List.length_append, List.length_cons, List.length_nil]
+
+/-- … and when the whole program is that loop, `run` returns the top of the stack after one pass of `B`
+    (and fails iff that pass fails) -/
+theorem C10_loop_body_overrun_run_actual (o : Oracles) (B : List Op) (it n : UInt16) (heap : Heap)
+    (hit : it.toNat > 0) (hn : B.length < n.toNat) (hS : ∀ op ∈ B, op.isStraight = true) :
+    run o ([Op.loop it n] ++ B) heap = (straight o B ([], heap)).bind fun sh => sh.1.head? := by
+  have hstep := stepN_one o ([] ++ [Op.loop it n] ++ B) (initExec heap)
+  rw [step_loop_head_any o [] B it n (initExec heap) hit (by omega) rfl rfl] at hstep
+  simp only [List.nil_append, List.length_nil] at hstep
+  unfold run
+  rw [runFuel_fuel_indep o _ (weightU ([Op.loop it n] ++ B) + 1)
+    (1 + (B.length + (weightU ([Op.loop it n] ++ B) + 1))) (initExec heap) 0
+    (by rw [phi_init]; omega) (by rw [phi_init]; omega),
+    runFuel_of_stepN o _ 1 _ _ _ 0 hstep,
+    inside_run o _ _ B _ [] _ _ hS (drop_loop_rest [] B _) rfl (by simp only; omega)]
+  show (straight o B ([], heap)).bind _ = _
+  cases straight o B ([], heap) with
+  | none => rfl
+  | some sh =>
+    simp only [Option.bind_some]
+    rw [C10_result_top o _ _ _ _
+      (by simp only [List.length_append, List.length_cons, List.length_nil]; omega)]
+
 /-! ## Non-vacuity: concrete programs -/
 
 section Examples
@@ -1127,5 +1220,10 @@ end Examples
 #print axioms C10_loop_exact_run
 #print axioms C10_loop_run
 #print axioms C10_loop_run_fails
+#print axioms C10_empty_loop_stale_frame_actual
+#print axioms C10_empty_loop_stale_frame_step_actual
+#print axioms C10_loop_body_overrun_runs_once_actual
+#print axioms C10_loop_body_overrun_stepN_actual
+#print axioms C10_loop_body_overrun_run_actual
 
 end Mel.VM
